@@ -12,6 +12,7 @@ DEVS = {  # deviation -> (types that exhibit it, invariant that must catch it)
     "DevQueuedOffset33": (["QueuedState"], "RoundTrip"),
     "DevAckMinLen44": (ACKS, "RoundTrip"),
     "DevPreallocFromCount": (["QueuedState"], "AllocProportional"),
+    "DevNoLegacyTail": (["NodeInfoAdvertise"], "RoundTrip"),
 }
 ELEM_SIZE = [120, 72, 288]   # Codec.tla ElemSize
 HFILES = ["common/common_test.go.tmpl", "protocol/codec_test.go"]
